@@ -405,6 +405,7 @@ type Clause struct {
 }
 
 type LoopSpec struct {
+	StepAsserts []*Clause // checkpoints at the back edge (checked, then assumed, before the invariants are checked)
 	ApplyWhen []*Expr // optional guard of each application (nil: unconditional)
 	Applies  []*Expr // lemma applications at the loop head: premise proved as an obligation, conclusion assumed
 	Lets     []LetDef // ghost snapshots taken at the loop head (after the invariants are assumed)
@@ -980,6 +981,18 @@ func (c *Contract) addClause(word, rest string) error {
 				}
 				ls.Lets = append(ls.Lets, LetDef{Name: strings.TrimSpace(part[:i]), E: e})
 			}
+		case "step":
+			// loop N step assert expr : checkpoint at the back edge, in terms of the state after the body
+			rest2 := strings.TrimSpace(f[2])
+			if !strings.HasPrefix(rest2, "assert ") {
+				return fmt.Errorf("expected: loop N step assert expr")
+			}
+			tags, body := parseTags(strings.TrimSpace(strings.TrimPrefix(rest2, "assert ")))
+			e, err := ParseExpr(body)
+			if err != nil {
+				return err
+			}
+			ls.StepAsserts = append(ls.StepAsserts, &Clause{Tags: tags, E: e, Text: body})
 		case "apply":
 			// loop N apply LEMMA(args) [when cond]
 			body := f[2]
